@@ -1236,11 +1236,30 @@ def sp_print(it, fr, *a, **k):
 
 
 def sp_id(it, fr, x):
-    """identity of the (engine-level) object: stable and unique among the objects alive on the path.  Address
-    re-use after an object died is not modelled (outside the claim)."""
+    """id(): a symbolic integer per object; objects alive at the same time have different ids, an object created
+    after another one died (harness: it.kill(obj)) may get the same id (address re-use after garbage collection)"""
     from .stubs import used
-    used('id(): identity of live objects; address re-use after garbage collection is not modelled')
-    return id(x) if not isinstance(x, SAny) else id(fr.split(x))
+    used('id(): fresh integer per object, distinct among live objects; re-use after an object died is allowed')
+    obj = fr.split(x) if isinstance(x, SAny) else x
+    table = it.__dict__.setdefault('id_table', [])
+    for o, v, alive in table:
+        if o is obj:
+            return SInt(v)
+    v = z3.Int(f'id!{len(table)}')
+    it.eng.add(v > 0, *[v != v2 for o2, v2, alive in table if alive[0]])
+    table.append((obj, v, [True]))
+    return SInt(v)
+
+
+def kill(it, obj):
+    """harness: the object is dropped (its address may be re-used by objects created later)"""
+    table = it.__dict__.setdefault('id_table', [])
+    for o, v, alive in table:
+        if o is obj:
+            alive[0] = False
+            return
+    # never observed through id(): register it dead so that later ids may coincide with nothing
+    return
 
 
 def sp_hash(it, fr, x):
